@@ -37,13 +37,14 @@ ASSUMPTIONS = [
     "hand-edited file",
 ]
 REQUIRED = {"mode:include": 40, "mode:exclude": 40, "kind:pair": 20, "kind:eam": 15, "kind:fs": 15, "kind:adp": 5,
-            "removes_and_keeps": 50, "views>=2": 40, "unknown_label": 15, "empty_include": 5}
+            "removes_and_keeps": 50, "views>=2": 40, "unknown_label": 15, "empty_include": 5,
+            "only_unknown_labels:include:make_config_parser": 2, "only_unknown_labels:exclude:make_config_parser": 2}
 
 
 @st.composite
 def _filter(draw, species, shape=None, mode=None):
     mode = mode or draw(st.sampled_from(["include", "exclude"]))
-    shape = shape or draw(st.sampled_from(["partial", "partial", "partial", "partial", "full", "empty", "unknown"]))
+    shape = shape or draw(st.sampled_from(["partial", "partial", "partial", "partial", "full", "empty", "unknown", "only_unknown"]))
     species = list(species)
     if shape == "partial" or shape == "unknown":
         n = draw(st.integers(1, max(1, len(species) - 1)))
@@ -53,6 +54,10 @@ def _filter(draw, species, shape=None, mode=None):
             variants = [x for sp in species for x in (sp.lower(), sp.upper(), sp.swapcase()) if x not in species]
             s += draw(st.lists(st.sampled_from(["Zq", "Tq", "Nope"] + sorted(set(variants))), min_size=1, max_size=2, unique=True))
             s = list(draw(st.permutations(s)))
+    elif shape == "only_unknown":
+        # nothing but labels the file does not use: include keeps nothing, exclude deletes nothing
+        variants = [x for sp in species for x in (sp.lower(), sp.upper(), sp.swapcase()) if x not in species]
+        s = draw(st.lists(st.sampled_from(["Zq", "Tq", "Nope"] + sorted(set(variants))), min_size=1, max_size=2, unique=True))
     elif shape == "full":
         s = list(draw(st.permutations(species)))
     else:
@@ -82,6 +87,7 @@ def strata(tier):
             out.append(("%s:%s:partial" % (nm, mode), _case(tg, "partial", mode), 3 * w))
             out.append(("%s:%s:unknown" % (nm, mode), _case(tg, "unknown", mode), w))
             out.append(("%s:%s:full" % (nm, mode), _case(tg, "full", mode), w))
+            out.append(("%s:%s:only_unknown" % (nm, mode), _case(tg, "only_unknown", mode), w))
         out.append(("%s:empty_include" % nm, _case(tg, "empty", "include"), w))
     return out
 
@@ -144,8 +150,12 @@ def check_case(case):
     etext = anymodel.text_of(edited)
     if removed and kept:
         cls.append("removes_and_keeps")
-    if set(flt["species"]) & {"Zq", "Tq", "Nope"}:
+    used = set(x for n, ents in secs if n in ("Pair", "EAM-Embed", "EAM-Density") for k, _ in ents
+               for x in anymodel.species_of_key(n, k))
+    if set(flt["species"]) - used:
         cls.append("unknown_label")
+        if flt["species"] and not set(flt["species"]) & used:
+            cls.append("only_unknown_labels:" + flt["mode"] + ":" + case["route"])
     if flt["mode"] == "include" and not flt["species"]:
         cls.append("empty_include")
     if len(case["others"]) >= 1:
